@@ -37,6 +37,8 @@ func main() {
 		os.Exit(cmdSelftest(os.Args[2:]))
 	case "params":
 		os.Exit(cmdParams())
+	case "locals":
+		os.Exit(cmdLocals())
 	case "baseline":
 		if len(os.Args) > 2 && os.Args[2] == "thorough" {
 			os.Exit(cmdBaselineThorough())
